@@ -1,11 +1,1074 @@
-//! C04 — not implemented yet (stub).
-use crate::engine::Ctx;
-use serde_json::Value;
+//! C04 — pure-component phase equilibria satisfy the equilibrium conditions and are found.
+//!
+//! Parts
+//! * `lattice`  (exhaustive, seed independent): every pure record of the shipped PC-SAFT,
+//!   SAFT-VR Mie and SAFT-VRQ Mie collections x 8 reduced temperatures of *that model's*
+//!   critical temperature; success demanded, conditions + T -> p -> T' -> p' round trip.
+//! * `sampled`  the same records at random T/Tc, random solver options, T- or p-specification.
+//! * `diagram`  `PhaseDiagram::pure` with npoints in [3,200]: completeness, strict monotonicity,
+//!   critical point last, every state an equilibrium at the expected temperature.
+//! * `mixture`  `vapor_pressure` / `boiling_temperature` / `vle_pure_comps` of mixture models
+//!   against the pure model built directly from the record.
+//! * `random`   random Peng-Robinson / PeTS / uv-theory records: conditions whenever `Ok`,
+//!   failures only counted.
+use crate::engine::{Ctx, Gen, Obs, PanicPolicy, PartCfg};
+use crate::model::*;
+use crate::scales::{contrib_abs, PD};
+use feos::core::Derivative::DV;
+use feos::core::{
+    Contributions, EosError, PhaseDiagram, PhaseEquilibrium, ReferenceSystem, SolverOptions, State,
+};
+use quantity::*;
+use serde::{Deserialize, Serialize};
+use serde_json::{json, Value};
+use std::collections::HashMap;
+use std::sync::{Arc, LazyLock, Mutex};
 
-pub fn run(_ctx: &Ctx) {
-    panic!("C04: check not implemented yet");
+pub type Vle = PhaseEquilibrium<Model, 2>;
+
+// ---------------------------------------------------------------------------------------
+// Tolerances (reduced units; reasons in `run`)
+// ---------------------------------------------------------------------------------------
+/// |p_v - p_l| <= TOL_EQ * p + ATOL_P * (rho_l T + sum_c |dA_c/dV|)   (fresh states)
+/// |mu_v - mu_l| <= TOL_EQ * T
+pub const TOL_EQ: f64 = 2e-6;
+pub const ATOL_P: f64 = 2e-10;
+/// T -> p -> T' and p -> T -> p' round trips
+pub const TOL_RT: f64 = 1e-7;
+/// mixture-model convenience functions against the pure model
+pub const TOL_SAME: f64 = 1e-10;
+
+// ---------------------------------------------------------------------------------------
+// The stated success domain: shipped records
+// ---------------------------------------------------------------------------------------
+pub struct PoolRec {
+    pub family: Family,
+    pub file: &'static str,
+    pub rec: Value,
 }
 
-pub fn replay(_ctx: &Ctx, _part: &str, _case: &Value) -> bool {
-    panic!("C04: check not implemented yet");
+/// Every pure record of parameters/pcsaft/*.json (pure-record files only; segment, binary and
+/// substance-list files have no pure records; the emptied rehner2023_binary.json is excluded
+/// by name through `PCSAFT_FILES`), saftvrmie/lafitte2013.json and saftvrqmie/*.json, in
+/// shrink order (methane of gross2001 first).
+pub static DOMAIN_POOL: LazyLock<Vec<PoolRec>> = LazyLock::new(|| {
+    let mut v = vec![];
+    for (f, recs) in &POOLS.pcsaft {
+        for r in recs {
+            v.push(PoolRec { family: Family::PcSaft, file: f, rec: r.clone() });
+        }
+    }
+    for r in &POOLS.vrmie {
+        v.push(PoolRec { family: Family::SaftVRMie, file: "lafitte2013.json", rec: r.clone() });
+    }
+    for (f, recs) in &POOLS.vrq {
+        for r in recs {
+            v.push(PoolRec { family: Family::SaftVRQMie, file: f, rec: r.clone() });
+        }
+    }
+    v
+});
+
+pub fn pure_spec(p: &PoolRec) -> ModelSpec {
+    ModelSpec {
+        family: p.family,
+        pure: vec![p.rec.clone()],
+        binary: vec![],
+        seg: None,
+        opts: Opts::default(),
+        source: format!("shipped:{}", p.file),
+    }
+}
+
+pub fn rec_name(rec: &Value) -> String {
+    let id = &rec["identifier"];
+    id["name"]
+        .as_str()
+        .or(id["iupac_name"].as_str())
+        .or(id["cas"].as_str())
+        .unwrap_or("?")
+        .to_string()
+}
+
+/// helium with the second-order Feynman-Hibbs correction: excepted from the success clause
+pub fn is_helium_fh2(rec: &Value) -> bool {
+    let fh2 = rec["model_record"]["fh"].as_u64() == Some(2) || rec["model_record"]["fh"].as_f64() == Some(2.0);
+    fh2 && (rec_name(rec).to_lowercase().contains("helium") || rec["identifier"]["cas"].as_str() == Some("7440-59-7"))
+}
+
+/// Is pure component i of the spec inside the domain for which the property demands success?
+pub fn in_success_domain(spec: &ModelSpec, i: usize) -> bool {
+    spec.source.starts_with("shipped:")
+        && spec.opts == Opts::default()
+        && match spec.family {
+            Family::PcSaft | Family::SaftVRMie => true,
+            Family::SaftVRQMie => !is_helium_fh2(&spec.pure[i]),
+            _ => false,
+        }
+}
+
+/// lower end of the reduced-temperature range of the success clause
+pub fn tr_min(spec: &ModelSpec) -> f64 {
+    if spec.family == Family::SaftVRQMie {
+        0.6
+    } else {
+        0.45
+    }
+}
+
+// ---------------------------------------------------------------------------------------
+// Known finding C04/pure-t-newton-overshoot.
+// On the unchanged tree `PhaseEquilibrium::pure(T)` fails at a thin set of (record, T) inside
+// the stated success domain (scan of all 2 191 records with step 5e-4 in T/Tc: 10 records,
+// 300 of 2.3e6 points): both the ideal-gas and the spinodal start end in the unguarded density
+// Newton step of `iterate_pure_t` (vle_pure.rs:124-128) stepping to a negative density
+// (`State::new_pure` -> `InvalidState("validate", "volume", < 0)`) or in the NaN brake
+// (`IterationFailed("pure_t")`, vle_pure.rs:119-122); the error of the last stage is returned.
+// Signature predicate: the error variant names that call site. The lattice is keyed exactly
+// (record, T/Tc), so any other failing lattice point is a violation whatever its variant.
+// ---------------------------------------------------------------------------------------
+pub struct Island {
+    pub file: &'static str,
+    pub name: &'static str,
+    pub lo: f64,
+    pub hi: f64,
+}
+
+/// failing points of the seed-independent lattice on the unchanged tree
+pub const LATTICE_KNOWN: &[Island] = &[Island { file: "lafitte2013.json", name: "toluene", lo: 0.99, hi: 0.99 }];
+/// windows with a failure of another variant (TrivialSolution: the spinodal start converges to
+/// two identical phases) next to overshoot failures of the same record
+pub const WINDOWS_KNOWN: &[Island] = &[Island { file: "esper2023.json", name: "2-methylhexanoic acid", lo: 0.93, hi: 0.98 }];
+
+fn in_table(t: &[Island], spec: &ModelSpec, i: usize, tr: f64) -> bool {
+    let name = rec_name(&spec.pure[i]);
+    t.iter()
+        .any(|k| spec.source == format!("shipped:{}", k.file) && k.name == name && tr >= k.lo - 1e-9 && tr <= k.hi + 1e-9)
+}
+
+/// signature predicate of C04/pure-t-newton-overshoot for a failed `pure(T)` of component i
+pub fn known_overshoot(spec: &ModelSpec, i: usize, tr: f64, e: &EosError, lattice: bool) -> bool {
+    if lattice {
+        return in_table(LATTICE_KNOWN, spec, i, tr);
+    }
+    let site = match e {
+        EosError::InvalidState(f, what, v) => f == "validate" && what == "volume" && *v < 0.0,
+        EosError::IterationFailed(s) => s == "pure_t",
+        _ => false,
+    };
+    site || in_table(WINDOWS_KNOWN, spec, i, tr)
+}
+
+// ---------------------------------------------------------------------------------------
+// Critical point of *that model* (cached; a pure function of the spec)
+// ---------------------------------------------------------------------------------------
+#[derive(Clone, Copy, Debug)]
+pub struct Crit {
+    pub t: f64,
+    pub p: f64,
+    pub rho: f64,
+    /// initial temperature (K) that had to be passed to `State::critical_point` (None: default)
+    pub init: Option<f64>,
+    /// the default call (no initial temperature) converged to a stationary point with p <= 0
+    pub default_spurious: Option<(f64, f64)>,
+}
+
+static CRIT_CACHE: LazyLock<Mutex<HashMap<String, Option<Crit>>>> = LazyLock::new(|| Mutex::new(HashMap::new()));
+
+fn crit_of(model: &Arc<Model>, init: Option<f64>) -> Option<Crit> {
+    let s = State::critical_point(model, None, init.map(|t| t * KELVIN), SolverOptions::default()).ok()?;
+    let c = Crit {
+        t: s.temperature.to_reduced(),
+        p: s.pressure(Contributions::Total).to_reduced(),
+        rho: s.density.to_reduced(),
+        init,
+        default_spurious: None,
+    };
+    (c.t.is_finite() && c.t > 0.0 && c.rho.is_finite() && c.rho > 0.0 && c.p.is_finite()).then_some(c)
+}
+
+/// Critical point of a pure model, reduced units: `State::critical_point(model, None, None,
+/// default)` as used by `PhaseDiagram::pure`. A stationary point with p_c <= 0 is not a
+/// vapor-liquid critical point; then (and when the default call fails) the call is repeated
+/// with initial temperatures 1.3 eps/k (1 + 0.1 (m-1)) x {1, 1.5, 2, 0.7, 3} and the first
+/// result with p_c > 0 is used; `default_spurious` records what the default call returned.
+pub fn critical(spec: &ModelSpec, model: &Arc<Model>) -> Option<Crit> {
+    let key = format!("{:?}|{}|{:?}", spec.family, spec.pure[0], spec.opts);
+    if let Some(c) = CRIT_CACHE.lock().unwrap().get(&key) {
+        return *c;
+    }
+    let d = crit_of(model, None);
+    let c = match d {
+        Some(c) if c.p > 0.0 => Some(c),
+        _ => {
+            let mr = &spec.pure[0]["model_record"];
+            let fb = match spec.family {
+                Family::PengRobinson => mr["tc"].as_f64().unwrap_or(300.0),
+                _ => 1.3 * mr["epsilon_k"].as_f64().unwrap_or(250.0) * (1.0 + 0.1 * (mr["m"].as_f64().unwrap_or(1.0) - 1.0)),
+            };
+            [1.0, 1.5, 2.0, 0.7, 3.0]
+                .iter()
+                .find_map(|f| crit_of(model, Some(f * fb)).filter(|c| c.p > 0.0))
+                .map(|mut c| {
+                    c.default_spurious = d.map(|d| (d.t, d.p));
+                    c
+                })
+        }
+    };
+    CRIT_CACHE.lock().unwrap().insert(key, c);
+    c
+}
+
+// ---------------------------------------------------------------------------------------
+// Solver options
+// ---------------------------------------------------------------------------------------
+#[derive(Serialize, Deserialize, Clone, Copy, Debug, PartialEq)]
+pub struct Opt {
+    pub max_iter: Option<usize>,
+    pub tol: Option<f64>,
+}
+
+impl Opt {
+    pub const DEFAULT: Opt = Opt { max_iter: None, tol: None };
+    pub fn solver(&self) -> SolverOptions {
+        let mut o = SolverOptions::default();
+        if let Some(m) = self.max_iter {
+            o = o.max_iter(m);
+        }
+        if let Some(t) = self.tol {
+            o = o.tol(t);
+        }
+        o
+    }
+    pub fn is_default(&self) -> bool {
+        *self == Opt::DEFAULT
+    }
+    /// at least as generous as the defaults of `pure` (50 iterations, 1e-12)?
+    pub fn at_least_default(&self) -> bool {
+        self.max_iter.map_or(true, |m| m >= 50) && self.tol.map_or(true, |t| t >= 1e-12)
+    }
+    /// tolerance of the equilibrium conditions: TOL_EQ with the default solver tolerance (or a
+    /// tighter one), 2e4 x the solver tolerance for looser ones. The stopping rule of pure_t /
+    /// pure_p bounds the last pressure (temperature) update, not the residual: the densities are
+    /// one Newton step behind, so the residual is the square of the last density correction.
+    pub fn tol_eq(&self) -> f64 {
+        TOL_EQ.max(2e4 * self.tol.unwrap_or(1e-12))
+    }
+    /// the solver tolerance is the default or tighter
+    pub fn default_tol(&self) -> bool {
+        self.tol.map_or(true, |t| t <= 1e-12)
+    }
+}
+
+/// gene 0 => defaults
+pub fn gen_opt(g: &mut Gen) -> Opt {
+    let max_iter = if g.bool(0.5) { Some(g.int(20, 200) as usize) } else { None };
+    let tol = if g.bool(0.5) { Some(g.log_range(1e-13, 1e-9)) } else { None };
+    Opt { max_iter, tol }
+}
+
+pub fn err_kind(e: &EosError) -> String {
+    let d = format!("{e:?}");
+    let head: String = d.split('(').next().unwrap_or("").chars().take(24).collect();
+    match e {
+        EosError::NotConverged(s) | EosError::IterationFailed(s) => format!("{head}({})", s.chars().take(24).collect::<String>()),
+        _ => head,
+    }
+}
+
+// ---------------------------------------------------------------------------------------
+// Oracle for one returned equilibrium
+// ---------------------------------------------------------------------------------------
+#[derive(Clone, Copy, Debug)]
+pub struct VleVals {
+    pub t: f64,
+    pub p: f64,
+    pub rho_v: f64,
+    pub rho_l: f64,
+    /// |mu_v - mu_l| / RT of the fresh states (0 if not computed)
+    pub dmu: f64,
+}
+
+pub fn vle_vals(vle: &Vle) -> VleVals {
+    VleVals {
+        t: vle.vapor().temperature.to_reduced(),
+        p: vle.vapor().pressure(Contributions::Total).to_reduced(),
+        rho_v: vle.vapor().density.to_reduced(),
+        rho_l: vle.liquid().density.to_reduced(),
+        dmu: 0.0,
+    }
+}
+
+/// Equilibrium conditions recomputed from public getters on *fresh* states at the returned
+/// (T, V, N) of each phase. Returns the recomputed (T, p_v, rho_v, rho_l).
+pub fn check_conditions(obs: &mut Obs, what: &str, model: &Arc<Model>, vle: &Vle, tol_eq: f64) -> Option<VleVals> {
+    let (v, l) = (vle.vapor(), vle.liquid());
+    let tv = v.temperature.to_reduced();
+    let tl = l.temperature.to_reduced();
+    obs.ensure(tv.to_bits() == tl.to_bits(), || format!("{what}: phases at different temperatures {tv:e} vs {tl:e}"));
+    let fv = State::new_nvt(model, v.temperature, v.volume, &v.moles);
+    let fl = State::new_nvt(model, l.temperature, l.volume, &l.moles);
+    let (fv, fl) = match (fv, fl) {
+        (Ok(a), Ok(b)) => (a, b),
+        _ => {
+            obs.fail(format!("{what}: returned phases cannot be rebuilt with State::new_nvt"));
+            return None;
+        }
+    };
+    let rho_v = fv.density.to_reduced();
+    let rho_l = fl.density.to_reduced();
+    // (a collapsed pair is judged by `check_collapsed`, whatever its order)
+    if (rho_l / rho_v - 1.0).abs() >= 1e-2 {
+        obs.ensure(rho_v < rho_l, || format!("{what}: vapor not less dense than liquid: {rho_v:e} vs {rho_l:e}"));
+    }
+    let p_v = fv.pressure(Contributions::Total).to_reduced();
+    let p_l = fl.pressure(Contributions::Total).to_reduced();
+    // the liquid pressure is a difference of O(rho T) terms: absolute floor from their size
+    let floor = ATOL_P * (rho_l * tl + contrib_abs(&fl, PD::First(DV)));
+    obs.comparisons += 1;
+    WORST.see("|p_v-p_l| / allowed", (p_v - p_l).abs() / (tol_eq * p_v.abs().max(p_l.abs()) + floor));
+    WORST.see("|p_v-p_l| / (rho_l T + sum|dA_c/dV|)", (p_v - p_l).abs() / (floor / ATOL_P));
+    if !((p_v - p_l).abs() <= tol_eq * p_v.abs().max(p_l.abs()) + floor) {
+        obs.fail(format!(
+            "{what}: pressures differ: p_v {p_v:e} vs p_l {p_l:e} (diff {:e}, rtol {tol_eq:e}, floor {floor:e}) at T={tv}",
+            (p_v - p_l).abs()
+        ));
+    }
+    let mu_v = fv.residual_chemical_potential().to_reduced()[0] + tv * rho_v.ln();
+    let mu_l = fl.residual_chemical_potential().to_reduced()[0] + tl * rho_l.ln();
+    obs.comparisons += 1;
+    WORST.see("|mu_v-mu_l|/RT / allowed", (mu_v - mu_l).abs() / tv / tol_eq);
+    if tol_eq == TOL_EQ {
+        WORST.see("|mu_v-mu_l|/RT (solver tol <= 1e-10, T <= 0.99 Tc)", (mu_v - mu_l).abs() / tv);
+    } else {
+        WORST.see("|mu_v-mu_l|/RT (looser solver tol or T > 0.99 Tc)", (mu_v - mu_l).abs() / tv);
+    }
+    if !((mu_v - mu_l).abs() <= tol_eq * tv) {
+        obs.fail(format!(
+            "{what}: chemical potentials differ: (mu_v - mu_l)/RT = {:e} (tol {tol_eq:e}) at T={tv}",
+            (mu_v - mu_l) / tv
+        ));
+    }
+    // the library's own cached numbers agree with the fresh ones
+    obs.close(&format!("{what}: stored vapor pressure vs fresh"), v.pressure(Contributions::Total).to_reduced(), p_v, 1e-12, 1e-14 * rho_v * tv);
+    Some(VleVals { t: tv, p: p_v, rho_v, rho_l, dmu: (mu_v - mu_l).abs() / tv })
+}
+
+/// Known finding C04/pure-collapsed-solution: a returned "equilibrium" whose two phases are
+/// (nearly) the same state. Below 0.99 T_c the coexisting densities differ by > 30 %; a
+/// relative difference below 1e-2 means the iteration collapsed onto one root and stopped on its
+/// own criterion (|dp| < tol p in pure_t, |dT| < tol T in pure_p) before the trivial-solution
+/// test (relative density difference < 1e-5, mod.rs:201-224) could fire.
+/// Signature: the returned densities differ by less than 1e-2 relative (either order). On the
+/// seed-independent lattice the signature is not accepted (no lattice point collapses).
+pub fn collapsed(v: &VleVals) -> bool {
+    (v.rho_l / v.rho_v - 1.0).abs() < 1e-2
+}
+
+/// Returns true (and records the finding or the failure) if the result is collapsed.
+pub fn check_collapsed(obs: &mut Obs, what: &str, v: &VleVals, opt: &Opt, tr: f64, lattice: bool) -> bool {
+    if !collapsed(v) {
+        return false;
+    }
+    obs.class("collapsed (near-trivial) solution returned as Ok");
+    let msg = format!(
+        "{what} returned Ok with two copies of one phase: rho_v = {:e}, rho_l = {:e} (ratio - 1 = {:e}) at T = {} K (T/Tc = {tr}), p = {:e}, solver tol = {:?}",
+        v.rho_v,
+        v.rho_l,
+        v.rho_l / v.rho_v - 1.0,
+        v.t,
+        v.p,
+        opt.tol
+    );
+    if !lattice && tr <= 0.99 + 1e-12 {
+        obs.known_or_fail("C04/pure-collapsed-solution", msg);
+    } else {
+        obs.fail(msg);
+    }
+    true
+}
+
+pub fn tr_class(tr: f64) -> &'static str {
+    if tr <= 0.5 {
+        "Tr<=0.5"
+    } else if tr < 0.7 {
+        "Tr 0.5-0.7"
+    } else if tr < 0.9 {
+        "Tr 0.7-0.9"
+    } else if tr <= 0.99 {
+        "Tr 0.9-0.99"
+    } else {
+        "Tr>0.99"
+    }
+}
+
+fn model_classes(obs: &mut Obs, spec: &ModelSpec) {
+    obs.class(spec.label());
+    obs.class(format!("source:{}", spec.source));
+    if spec.has_association() {
+        obs.class("assoc");
+    }
+    if spec.has_polar() {
+        obs.class("polar");
+    }
+    if !spec.has_association() && !spec.has_polar() {
+        obs.class("non-assoc non-polar");
+    }
+    if spec.family == Family::UVTheory {
+        obs.class(format!("uv-perturbation:{}", spec.opts.perturbation));
+    }
+}
+
+/// the worst deviations seen, for calibration (printed into the evidence)
+#[derive(Default)]
+struct Worst {
+    v: Mutex<std::collections::BTreeMap<&'static str, f64>>,
+}
+impl Worst {
+    fn see(&self, k: &'static str, x: f64) {
+        if x.is_finite() {
+            let mut m = self.v.lock().unwrap();
+            let e = m.entry(k).or_insert(0.0);
+            if x > *e {
+                *e = x;
+            }
+        }
+    }
+}
+static WORST: LazyLock<Worst> = LazyLock::new(Worst::default);
+
+// ---------------------------------------------------------------------------------------
+// Part 1/2/5: one solve (lattice, sampled, random share the check)
+// ---------------------------------------------------------------------------------------
+#[derive(Serialize, Deserialize, Clone, Debug)]
+pub struct SCase {
+    pub spec: ModelSpec,
+    /// T / T_c of that model
+    pub tr: f64,
+    pub opt: Opt,
+    /// specify the pressure (taken from the T-solve) instead of the temperature
+    pub pspec: bool,
+    /// a point of the seed-independent lattice (known failures are keyed exactly there)
+    #[serde(default)]
+    pub lattice: bool,
+}
+
+pub const TRS: [f64; 8] = [0.45, 0.5, 0.6, 0.7, 0.8, 0.9, 0.95, 0.99];
+pub const TRS_Q: [f64; 8] = [0.6, 0.65, 0.7, 0.8, 0.9, 0.95, 0.97, 0.99];
+
+fn lattice_items() -> Vec<SCase> {
+    let mut v = vec![];
+    for p in DOMAIN_POOL.iter() {
+        let spec = pure_spec(p);
+        let trs = if spec.family == Family::SaftVRQMie { TRS_Q } else { TRS };
+        for tr in trs {
+            v.push(SCase { spec: spec.clone(), tr, opt: Opt::DEFAULT, pspec: false, lattice: true });
+        }
+    }
+    v
+}
+
+fn decode_sampled(g: &mut Gen) -> SCase {
+    let p = &DOMAIN_POOL[pool_index(g)];
+    let spec = pure_spec(p);
+    let tr = g.range(tr_min(&spec), 0.99);
+    let opt = gen_opt(g);
+    let pspec = g.bool(0.4);
+    SCase { spec, tr, opt, pspec, lattice: false }
+}
+
+/// index into DOMAIN_POOL: half of the draws weight the files equally (esper2023 alone holds
+/// 85 % of the records), half are uniform over records. Monotone in the genes.
+pub fn pool_index(g: &mut Gen) -> usize {
+    let n = DOMAIN_POOL.len();
+    if g.bool(0.5) {
+        return g.index(n);
+    }
+    // file boundaries
+    let mut starts = vec![0usize];
+    for i in 1..n {
+        if DOMAIN_POOL[i].file != DOMAIN_POOL[i - 1].file {
+            starts.push(i);
+        }
+    }
+    starts.push(n);
+    let f = g.index(starts.len() - 1);
+    starts[f] + g.index(starts[f + 1] - starts[f])
+}
+
+fn decode_random(g: &mut Gen) -> SCase {
+    let cfg = GenCfg {
+        // exactly the families of the quantifier (random PC-SAFT / SAFT-VR Mie records have spurious
+        // low-temperature critical points and coexistence branches; they are not part of it)
+        families: vec![Family::PengRobinson, Family::Pets, Family::UVTheory],
+        min_comp: 1,
+        max_comp: 1,
+    };
+    let spec = gen_model(g, &cfg);
+    let tr = g.range(0.45, 0.99);
+    let opt = gen_opt(g);
+    let pspec = g.bool(0.4);
+    SCase { spec, tr, opt, pspec, lattice: false }
+}
+
+fn check_solve(case: &SCase, obs: &mut Obs) {
+    let spec = &case.spec;
+    model_classes(obs, spec);
+    obs.class(tr_class(case.tr));
+    let demanded_model = in_success_domain(spec, 0);
+    let in_range = case.tr >= tr_min(spec) - 1e-12 && case.tr <= 0.99 + 1e-12;
+    obs.class(if demanded_model { "success demanded (model)" } else { "conditions-only model" });
+    let model = match spec.build() {
+        Ok(m) => m,
+        Err(e) => {
+            if demanded_model {
+                obs.fail(format!("shipped record does not build: {e}"));
+            } else {
+                obs.discard(format!("build:{}", e.chars().take(40).collect::<String>()));
+            }
+            return;
+        }
+    };
+    let Some(c) = critical(spec, &model) else {
+        if demanded_model {
+            obs.fail("State::critical_point fails for a shipped record: no pure phase diagram can be built".to_string());
+        } else {
+            obs.discard(format!("no critical point:{}", spec.label()));
+        }
+        return;
+    };
+    let t = case.tr * c.t * KELVIN;
+    // the defining T-solve (default options, no guess); it also provides p for the p-specification
+    let opt_t = if case.pspec { Opt::DEFAULT } else { case.opt };
+    let demanded = demanded_model && in_range && opt_t.at_least_default();
+    obs.class(if opt_t.is_default() { "options:default" } else { "options:non-default" });
+    if !opt_t.at_least_default() {
+        obs.class("options tighter than default (conditions only)");
+    }
+    let r = Vle::pure(&model, t, None, opt_t.solver());
+    let vle = match r {
+        Err(e) => {
+            let k = err_kind(&e);
+            obs.class(format!("pure_t:Err:{k}"));
+            if demanded_model && in_range {
+                obs.class(format!("pure_t FAILED in range: {} {} @ {}", spec.source, rec_name(&spec.pure[0]), tr_class(case.tr)));
+            }
+            if demanded {
+                let msg = format!(
+                    "PhaseEquilibrium::pure(T) failed inside the stated domain: {} ({}) T/Tc={} Tc={} K: {e}",
+                    rec_name(&spec.pure[0]),
+                    spec.source,
+                    case.tr,
+                    c.t
+                );
+                if known_overshoot(spec, 0, case.tr, &e, case.lattice) {
+                    obs.known_or_fail("C04/pure-t-newton-overshoot", msg);
+                } else {
+                    obs.fail(msg);
+                }
+            }
+            return;
+        }
+        Ok(v) => v,
+    };
+    obs.class("pure_t:Ok");
+    // T specification is met bitwise by both phases
+    obs.ensure(vle.vapor().temperature == t && vle.liquid().temperature == t, || {
+        format!("T-specification not met bitwise: {} / {} vs {}", vle.vapor().temperature, vle.liquid().temperature, t)
+    });
+    let Some(v0) = check_conditions(obs, "pure(T)", &model, &vle, opt_t.tol_eq()) else { return };
+    if check_collapsed(obs, "pure(T)", &v0, &opt_t, case.tr, case.lattice) {
+        return;
+    }
+    if demanded_model {
+        // consequences of the diagram clause (T, p, rho_v rise and rho_l falls up to the critical point)
+        obs.ensure(v0.rho_v < c.rho && c.rho < v0.rho_l, || {
+            format!("critical density {} not between the coexisting densities {} / {}", c.rho, v0.rho_v, v0.rho_l)
+        });
+        obs.ensure(v0.p < c.p && v0.p > 0.0, || format!("vapor pressure {} not in (0, p_c = {})", v0.p, c.p));
+    } else if !(v0.rho_v < c.rho && c.rho < v0.rho_l && v0.p < c.p) {
+        obs.class("random record: critical point not above the coexistence point");
+    }
+
+    // p-specification with the resulting pressure: mutually inverse
+    let opt_p = if case.pspec { case.opt } else { Opt::DEFAULT };
+    let p = vle.vapor().pressure(Contributions::Total);
+    match Vle::pure(&model, p, None, opt_p.solver()) {
+        Err(e) => {
+            obs.class(format!("pure_p:Err:{}", err_kind(&e)));
+            if demanded_model {
+                obs.class(format!("pure_p:Err in domain at {}", tr_class(case.tr)));
+                obs.class(format!("pure_p FAILED: {} {} @ {} {}", spec.source, rec_name(&spec.pure[0]), tr_class(case.tr), err_kind(&e)));
+            }
+        }
+        Ok(vp) => {
+            obs.class("pure_p:Ok");
+            let tol = opt_p.tol_eq();
+            if let Some(v1) = check_conditions(obs, "pure(p)", &model, &vp, tol).filter(|v1| !check_collapsed(obs, "pure(p)", v1, &opt_p, v1.t / c.t, case.lattice)) {
+                // both phases at the specified pressure
+                let pr = p.to_reduced();
+                let fl = State::new_nvt(&model, vp.liquid().temperature, vp.liquid().volume, &vp.liquid().moles).unwrap();
+                let floor = ATOL_P * (v1.rho_l * v1.t + contrib_abs(&fl, PD::First(DV)));
+                obs.close("pure(p): vapor pressure equals the specification", v1.p, pr, tol, 0.0);
+                obs.close("pure(p): liquid pressure equals the specification", fl.pressure(Contributions::Total).to_reduced(), pr, tol, floor);
+                // T -> p -> T'
+                if v1.t < 0.9 * tr_min(spec) * c.t || v1.t > c.t {
+                    // an equilibrium outside the temperature range of the quantifier: the models have
+                    // further coexistence branches there (SAFT-VRQ Mie below 0.6 T_c, PC-SAFT
+                    // liquid-liquid artefacts at low temperature); `mutually inverse` speaks about
+                    // T in the range and the corresponding p
+                    obs.class("pure(p) returned an equilibrium outside the temperature range (other branch)");
+                    obs.inconclusive("pure(p) converged to a coexistence branch outside [T_min, T_c]");
+                    return;
+                }
+                if !demanded_model && (v1.t - v0.t).abs() > 0.05 * v0.t {
+                    // random records (SAFT-VR Mie, polar PC-SAFT) have spurious low-temperature
+                    // critical points and a second coexistence branch at the same pressure
+                    obs.class("random record: pure(p) found another coexistence branch");
+                    return;
+                }
+                let rt = TOL_RT.max(2e3 * opt_p.tol.unwrap_or(0.0)).max(2e3 * opt_t.tol.unwrap_or(0.0));
+                WORST.see("roundtrip |T'-T|/T / allowed", (v1.t - v0.t).abs() / v0.t / rt);
+                if rt == TOL_RT {
+                    WORST.see("roundtrip |T'-T|/T (solver tol <= 1e-10)", (v1.t - v0.t).abs() / v0.t);
+                }
+                WORST.see("roundtrip |rho'-rho|/rho / allowed", ((v1.rho_l - v0.rho_l).abs() / v0.rho_l).max((v1.rho_v - v0.rho_v).abs() / v0.rho_v) / (100.0 * rt));
+                obs.close("round trip T -> p -> T'", v1.t, v0.t, rt, 0.0);
+                obs.close("round trip: vapor density", v1.rho_v, v0.rho_v, 100.0 * rt, 0.0);
+                obs.close("round trip: liquid density", v1.rho_l, v0.rho_l, 100.0 * rt, 0.0);
+                // p -> T' -> p'
+                let r2 = Vle::pure(&model, vp.vapor().temperature, None, opt_t.solver());
+                if let (Err(e), true) = (&r2, demanded) {
+                    let msg = format!("pure(T') failed at the temperature returned by pure(p): T' = {} (T/Tc = {}): {e}", vp.vapor().temperature, v1.t / c.t);
+                    if known_overshoot(spec, 0, v1.t / c.t, e, case.lattice) {
+                        obs.known_or_fail("C04/pure-t-newton-overshoot", msg);
+                    } else {
+                        obs.fail(msg);
+                    }
+                }
+                if let Ok(v2) = r2 {
+                    let p2 = v2.vapor().pressure(Contributions::Total).to_reduced();
+                    if check_collapsed(obs, "pure(T')", &vle_vals(&v2), &opt_t, case.tr, case.lattice) {
+                        return;
+                    }
+                    WORST.see("roundtrip |p'-p|/p / allowed", (p2 - pr).abs() / pr / (30.0 * rt));
+                    obs.close("round trip p -> T' -> p'", p2, pr, 30.0 * rt, 0.0);
+                }
+            }
+        }
+    }
+    let nontrivial = case.tr >= 0.9 || case.tr <= 0.5 || spec.has_association() || spec.has_polar() || !case.opt.is_default();
+    if nontrivial {
+        obs.nontrivial();
+    }
+}
+
+// ---------------------------------------------------------------------------------------
+// Part 3: PhaseDiagram::pure
+// ---------------------------------------------------------------------------------------
+#[derive(Serialize, Deserialize, Clone, Debug)]
+pub struct DCase {
+    pub spec: ModelSpec,
+    pub npoints: usize,
+    /// min_temperature / T_c
+    pub tmin_r: f64,
+    pub opt: Opt,
+}
+
+fn decode_diagram(g: &mut Gen) -> DCase {
+    let p = &DOMAIN_POOL[pool_index(g)];
+    let spec = pure_spec(p);
+    // half of the diagrams small (3..=12 points: every index matters), half up to 200
+    let npoints = if g.bool(0.5) { g.int(13, 200) as usize } else { g.int(3, 12) as usize };
+    let tmin_r = g.range(tr_min(&spec), 0.9);
+    let opt = gen_opt(g);
+    DCase { spec, npoints, tmin_r, opt }
+}
+
+fn check_diagram(case: &DCase, obs: &mut Obs) {
+    let spec = &case.spec;
+    model_classes(obs, spec);
+    let n = case.npoints;
+    obs.class(if n <= 12 { "npoints 3-12" } else if n <= 60 { "npoints 13-60" } else { "npoints 61-200" });
+    obs.class(if case.opt.is_default() { "options:default" } else { "options:non-default" });
+    let demanded_model = in_success_domain(spec, 0);
+    let model = match spec.build() {
+        Ok(m) => m,
+        Err(e) => {
+            obs.fail(format!("shipped record does not build: {e}"));
+            return;
+        }
+    };
+    let Some(c) = critical(spec, &model) else {
+        if demanded_model {
+            obs.fail("State::critical_point fails for a shipped record".to_string());
+        } else {
+            obs.discard("no critical point");
+        }
+        return;
+    };
+    let tmin = case.tmin_r * c.t * KELVIN;
+    // Known finding: with the default arguments State::critical_point converges to a stationary
+    // point at negative pressure for some SAFT-VR Mie records; the diagram then ends in that state.
+    // Signature: SAFT-VR Mie AND the default critical point has p_c <= 0. The clause "the last
+    // state is the critical point / the curve rises up to it" is asserted on the default call and
+    // routed to the finding; all other clauses run with the critical temperature passed as guess.
+    let mut tc_guess = None;
+    if let Some((ts, ps)) = c.default_spurious {
+        obs.class("default critical point spurious (p_c <= 0)");
+        let r = PhaseDiagram::pure(&model, tmin, n, None, case.opt.solver());
+        let bad = match &r {
+            Ok(d) => d.states.last().map_or(true, |l| l.vapor().pressure(Contributions::Total).to_reduced() <= 0.0),
+            Err(_) => true,
+        };
+        if bad {
+            let msg = format!(
+                "PhaseDiagram::pure(.., critical_temperature = None) of {} ends in a state with p <= 0: State::critical_point converged to T = {ts} K, p = {ps:e} (genuine critical point at T = {} K, p = {:e})",
+                rec_name(&spec.pure[0]),
+                c.t,
+                c.p
+            );
+            if spec.family == Family::SaftVRMie && ps <= 0.0 {
+                obs.known_or_fail("C04/saftvrmie-spurious-critical-point", msg);
+            } else if demanded_model {
+                obs.fail(msg);
+            }
+        }
+        tc_guess = c.init.map(|t| t * KELVIN);
+    }
+    let dia = match PhaseDiagram::pure(&model, tmin, n, tc_guess, case.opt.solver()) {
+        Ok(d) => d,
+        Err(e) => {
+            if demanded_model {
+                obs.fail(format!("PhaseDiagram::pure returned Err although the critical point exists: {e}"));
+            } else {
+                obs.class(format!("diagram:Err:{}", err_kind(&e)));
+            }
+            return;
+        }
+    };
+    let states = &dia.states;
+    // expected temperatures: the documented construction (npoints - 1 equidistant temperatures
+    // from min_temperature towards T_c, the critical point as the last state)
+    let tc = c.t * KELVIN;
+    let tmax = tmin + (tc - tmin) * ((n - 2) as f64 / (n - 1) as f64);
+    let expected = Temperature::linspace(tmin, tmax, n - 1);
+    let expected: Vec<f64> = (0..n - 1).map(|i| expected.get(i).to_reduced()).collect();
+    let n_in = expected.iter().filter(|&&t| t <= 0.99 * c.t).count();
+    obs.class(if n_in == n - 1 { "all points <= 0.99 Tc" } else { "some points > 0.99 Tc" });
+    obs.ensure(!states.is_empty() && states.len() <= n, || format!("diagram has {} states for npoints = {n}", states.len()));
+    if states.is_empty() {
+        return;
+    }
+    // last state: the critical point, both phases identical
+    let last = states.last().unwrap();
+    let lv = vle_vals(last);
+    obs.ensure(lv.rho_v.to_bits() == lv.rho_l.to_bits(), || format!("last state is not a critical point: rho_v {} rho_l {}", lv.rho_v, lv.rho_l));
+    obs.close("last state T equals State::critical_point", lv.t, c.t, 1e-12, 0.0);
+    obs.close("last state rho equals State::critical_point", lv.rho_v, c.rho, 1e-12, 0.0);
+    obs.close("last state p equals State::critical_point", lv.p, c.p, 1e-10, 0.0);
+    // every returned sub-critical state sits at one of the expected temperatures, in order
+    let sub = &states[..states.len() - 1];
+    let mut k = 0usize; // cursor into expected
+    let mut found = vec![false; n - 1];
+    let mut prev: Option<VleVals> = None;
+    let at_default = case.opt.at_least_default();
+    for (i, s) in sub.iter().enumerate() {
+        let ts = s.vapor().temperature.to_reduced();
+        while k < n - 1 && (expected[k] - ts).abs() > 1e-12 * ts {
+            k += 1;
+        }
+        if k == n - 1 {
+            obs.fail(format!("state {i} at T = {ts} K is not one of the remaining grid temperatures (grid {:?})", &expected[..(n - 1).min(6)]));
+            return;
+        }
+        found[k] = true;
+        k += 1;
+        // beyond 0.99 T_c (outside the success clause) the densities react to the pressure
+        // criterion with 1/(dp/drho) -> infinity: ten times the tolerance
+        let tol_i = if ts > 0.99 * c.t { 10.0 * case.opt.tol_eq() } else { case.opt.tol_eq() };
+        let Some(v) = check_conditions(obs, &format!("diagram state {i}"), &model, s, tol_i) else { return };
+        if check_collapsed(obs, &format!("diagram state {i}"), &v, &case.opt, v.t / c.t, false) {
+            return;
+        }
+        if let Some(p) = prev {
+            obs.ensure(v.t > p.t, || format!("temperature not strictly increasing at state {i}: {} after {}", v.t, p.t));
+            obs.ensure(v.p > p.p, || format!("pressure not strictly increasing at state {i}: {:e} after {:e} (T {} after {})", v.p, p.p, v.t, p.t));
+            obs.ensure(v.rho_v > p.rho_v, || format!("vapor density not strictly increasing at state {i}: {:e} after {:e} (T {} after {})", v.rho_v, p.rho_v, v.t, p.t));
+            obs.ensure(v.rho_l < p.rho_l, || format!("liquid density not strictly decreasing at state {i}: {:e} after {:e} (T {} after {})", v.rho_l, p.rho_l, v.t, p.t));
+        }
+        prev = Some(v);
+    }
+    if let Some(p) = prev {
+        obs.ensure(c.t > p.t && c.p > p.p, || format!("critical point (T {}, p {:e}) not above the last sub-critical state (T {}, p {:e})", c.t, c.p, p.t, p.p));
+        obs.ensure(c.rho > p.rho_v && c.rho < p.rho_l, || format!("critical density {:e} not between the densities of the last sub-critical state {:e} / {:e}", c.rho, p.rho_v, p.rho_l));
+    }
+    // completeness: every grid temperature inside [tr_min, 0.99] T_c is present
+    let mut missing_in = vec![];
+    let mut missing_out = 0;
+    for (i, f) in found.iter().enumerate() {
+        if !*f {
+            if expected[i] <= 0.99 * c.t {
+                missing_in.push(i);
+            } else {
+                missing_out += 1;
+            }
+        }
+    }
+    if missing_out > 0 {
+        obs.class("points above 0.99 Tc missing (outside the success clause)");
+    }
+    if n_in < n - 1 && missing_out == 0 {
+        obs.class("points above 0.99 Tc all found");
+    }
+    if !missing_in.is_empty() {
+        // a missing point is the known finding iff the stand-alone solve at that temperature
+        // fails with the signature of the finding
+        let all_known = missing_in.iter().all(|&i| {
+            match Vle::pure(&model, expected[i] * KELVIN, None, case.opt.solver()) {
+                Err(e) => known_overshoot(spec, 0, expected[i] / c.t, &e, false),
+                Ok(_) => false,
+            }
+        });
+        if demanded_model && at_default && all_known {
+            obs.known_or_fail(
+                "C04/pure-t-newton-overshoot",
+                format!("diagram of {} with npoints = {n}: {} state(s) missing where the stand-alone solve fails with the known signature", rec_name(&spec.pure[0]), missing_in.len()),
+            );
+        } else if demanded_model && at_default {
+            obs.fail(format!(
+                "diagram of {} ({}) with npoints = {n}, T_min/T_c = {}: {} state(s) missing inside [.., 0.99] T_c: indices {:?} (T/Tc = {:?})",
+                rec_name(&spec.pure[0]),
+                spec.source,
+                case.tmin_r,
+                missing_in.len(),
+                &missing_in[..missing_in.len().min(5)],
+                missing_in.iter().take(5).map(|&i| expected[i] / c.t).collect::<Vec<_>>()
+            ));
+        } else {
+            obs.class("points missing (conditions-only configuration)");
+        }
+    } else if missing_out == 0 {
+        obs.ensure(states.len() == n, || format!("diagram has {} states for npoints = {n}", states.len()));
+        obs.class("complete: n states for n points");
+    }
+    if sub.len() >= 2 {
+        obs.nontrivial();
+    }
+}
+
+// ---------------------------------------------------------------------------------------
+// Part 4: vapor_pressure / boiling_temperature / vle_pure_comps of mixture models
+// ---------------------------------------------------------------------------------------
+#[derive(Serialize, Deserialize, Clone, Debug)]
+pub struct MCase {
+    pub spec: ModelSpec,
+    /// component whose critical temperature sets the temperature
+    pub ci: usize,
+    pub tr: f64,
+}
+
+fn decode_mixture(g: &mut Gen) -> MCase {
+    let fam = g.pick(&[Family::PcSaft, Family::SaftVRMie, Family::SaftVRQMie]);
+    let n = 2 + g.index(2);
+    let idx: Vec<usize> = (0..DOMAIN_POOL.len()).filter(|&i| DOMAIN_POOL[i].family == fam).collect();
+    let mut pure = vec![];
+    let mut file = "";
+    let mut tries = 0;
+    while pure.len() < n {
+        // first record fixes the file (SAFT-VRQ Mie: FH orders of different files cannot be combined);
+        let cand: Vec<usize> = if file.is_empty() || fam != Family::SaftVRQMie {
+            idx.clone()
+        } else {
+            idx.iter().copied().filter(|&i| DOMAIN_POOL[i].file == file).collect()
+        };
+        let p = &DOMAIN_POOL[cand[g.index(cand.len())]];
+        tries += 1;
+        // distinct records (tries bounded: an exhausted genome keeps returning index 0)
+        if pure.iter().any(|r: &Value| r["identifier"] == p.rec["identifier"]) && tries < 12 {
+            continue;
+        }
+        if file.is_empty() {
+            file = p.file;
+        }
+        pure.push(p.rec.clone());
+    }
+    let mut binary = vec![];
+    for i in 0..n {
+        for j in i + 1..n {
+            if g.bool(0.5) {
+                let k = g.range(-0.1, 0.1);
+                binary.push((i, j, json!({"k_ij": k})));
+            }
+        }
+    }
+    let spec = ModelSpec { family: fam, pure, binary, seg: None, opts: Opts::default(), source: format!("shipped:{file}") };
+    let ci = g.index(n);
+    let tr = g.range(tr_min(&spec), 0.99);
+    MCase { spec, ci, tr }
+}
+
+fn same_opt(obs: &mut Obs, what: &str, a: Option<f64>, b: Option<f64>) {
+    match (a, b) {
+        (Some(x), Some(y)) => {
+            obs.close(what, x, y, TOL_SAME, 0.0);
+        }
+        (None, None) => obs.count(),
+        _ => obs.fail(format!("{what}: mixture function gives {a:?}, the pure model gives {b:?}")),
+    }
+}
+
+fn check_mixture(case: &MCase, obs: &mut Obs) {
+    let spec = &case.spec;
+    model_classes(obs, spec);
+    let n = spec.n();
+    obs.class(format!("n={n}"));
+    let mix = match spec.build() {
+        Ok(m) => m,
+        Err(e) => {
+            obs.discard(format!("build:{}", e.chars().take(60).collect::<String>()));
+            return;
+        }
+    };
+    let pures: Vec<(ModelSpec, Arc<Model>)> = (0..n)
+        .map(|i| {
+            let s = spec.subset(&[i]);
+            let m = s.build().expect("pure model of a shipped record builds");
+            (s, m)
+        })
+        .collect();
+    let Some(cc) = critical(&pures[case.ci].0, &pures[case.ci].1) else {
+        obs.fail("State::critical_point fails for a shipped record".to_string());
+        return;
+    };
+    let t = case.tr * cc.t * KELVIN;
+    let tr_of = |i: usize| critical(&pures[i].0, &pures[i].1).map(|c| t.to_reduced() / c.t);
+    // --- vapor_pressure ---
+    let pv = Vle::vapor_pressure(&mix, t);
+    obs.ensure(pv.len() == n, || format!("vapor_pressure returned {} entries for {n} components", pv.len()));
+    let mut p_ci = None;
+    let mut n_sub = 0;
+    for i in 0..n {
+        let direct_r = Vle::pure(&pures[i].1, t, None, SolverOptions::default());
+        let direct_err = direct_r.as_ref().err().map(|e| known_overshoot(&pures[i].0, 0, tr_of(i).unwrap_or(0.0), e, false));
+        let direct = direct_r.ok();
+        same_opt(
+            obs,
+            &format!("vapor_pressure[{i}] vs pure model"),
+            pv[i].map(|p| p.to_reduced()),
+            direct.as_ref().map(|v| v.vapor().pressure(Contributions::Total).to_reduced()),
+        );
+        let tri = tr_of(i);
+        let inside = tri.map_or(false, |x| x >= tr_min(&pures[i].0) && x <= 0.99) && in_success_domain(&pures[i].0, 0);
+        if inside {
+            n_sub += 1;
+            obs.count();
+            if pv[i].is_none() {
+                let msg = format!("vapor_pressure[{i}] is None at T/Tc_i = {:?} ({})", tri, rec_name(&spec.pure[i]));
+                if direct_err == Some(true) {
+                    obs.known_or_fail("C04/pure-t-newton-overshoot", msg);
+                } else {
+                    obs.fail(msg);
+                }
+            }
+        }
+        obs.class(match tri {
+            Some(x) if x < 1.0 => "component sub-critical",
+            Some(_) => "component super-critical",
+            None => "component without critical point",
+        });
+        if i == case.ci {
+            p_ci = pv[i];
+        }
+    }
+    // --- vle_pure_comps at T ---
+    let vt = Vle::vle_pure_comps(&mix, t);
+    obs.ensure(vt.len() == n, || format!("vle_pure_comps returned {} entries", vt.len()));
+    for i in 0..n {
+        let direct = Vle::pure(&pures[i].1, t, None, SolverOptions::default()).ok();
+        compare_padded(obs, &format!("vle_pure_comps(T)[{i}]"), i, n, vt[i].as_ref(), direct.as_ref());
+    }
+    // --- boiling_temperature and vle_pure_comps at p = p_sat of component ci ---
+    if let Some(p) = p_ci {
+        let tb = Vle::boiling_temperature(&mix, p);
+        obs.ensure(tb.len() == n, || format!("boiling_temperature returned {} entries", tb.len()));
+        let vp = Vle::vle_pure_comps(&mix, p);
+        for i in 0..n {
+            let direct = Vle::pure(&pures[i].1, p, None, SolverOptions::default()).ok();
+            same_opt(
+                obs,
+                &format!("boiling_temperature[{i}] vs pure model"),
+                tb[i].map(|x| x.to_reduced()),
+                direct.as_ref().map(|v| v.vapor().temperature.to_reduced()),
+            );
+            compare_padded(obs, &format!("vle_pure_comps(p)[{i}]"), i, n, vp[i].as_ref(), direct.as_ref());
+            if i == case.ci {
+                obs.class(if tb[i].is_some() { "boiling_temperature:Some" } else { "boiling_temperature:None" });
+
+            }
+        }
+    }
+    if n_sub >= 1 {
+        obs.nontrivial();
+    }
+}
+
+/// a pure equilibrium embedded in the mixture model (zero moles of the others) against the
+/// equilibrium of the pure model
+fn compare_padded(obs: &mut Obs, what: &str, i: usize, n: usize, padded: Option<&Vle>, direct: Option<&Vle>) {
+    match (padded, direct) {
+        (None, None) => obs.count(),
+        (Some(a), Some(b)) => {
+            let (va, vb) = (vle_vals(a), vle_vals(b));
+            if check_collapsed(obs, &format!("{what}: pure model solve"), &vb, &Opt::DEFAULT, 0.0, false) {
+                return;
+            }
+            // vle_pure_comps orders the two phases by density (from_states); the labels of the pure
+            // model's result are judged in the other parts: compare the two densities as a set
+            obs.close(&format!("{what}: T"), va.t, vb.t, TOL_SAME, 0.0);
+            obs.close(&format!("{what}: lower density"), va.rho_v.min(va.rho_l), vb.rho_v.min(vb.rho_l), TOL_SAME, 0.0);
+            obs.close(&format!("{what}: higher density"), va.rho_v.max(va.rho_l), vb.rho_v.max(vb.rho_l), TOL_SAME, 0.0);
+            obs.ensure(va.rho_v <= va.rho_l, || format!("{what}: vle_pure_comps returns vapor denser than liquid"));
+            for (ph, s) in [("vapor", a.vapor()), ("liquid", a.liquid())] {
+                obs.ensure(s.molefracs.len() == n && (0..n).all(|j| s.molefracs[j] == if j == i { 1.0 } else { 0.0 }), || {
+                    format!("{what}: {ph} mole fractions {} are not the unit vector e_{i}", s.molefracs)
+                });
+            }
+        }
+        _ => obs.fail(format!("{what}: Some/None differs from the pure model: mixture {:?} pure {:?}", padded.is_some(), direct.is_some())),
+    }
+}
+
+// ---------------------------------------------------------------------------------------
+const SAMPLED: PartCfg = PartCfg { name: "sampled", genome_len: 12, cases_quick: 20_000, cases_thorough: 1_000_000, panic: PanicPolicy::Violation };
+const DIAGRAM: PartCfg = PartCfg { name: "diagram", genome_len: 12, cases_quick: 500, cases_thorough: 25_000, panic: PanicPolicy::Violation };
+const MIXTURE: PartCfg = PartCfg { name: "mixture", genome_len: 24, cases_quick: 2_000, cases_thorough: 100_000, panic: PanicPolicy::Violation };
+const RANDOM: PartCfg = PartCfg { name: "random", genome_len: 48, cases_quick: 6_000, cases_thorough: 300_000, panic: PanicPolicy::Count };
+
+pub fn run(ctx: &Ctx) {
+    ctx.set_rule("lattice (exhaustive, seed independent): every pure record of parameters/pcsaft/{gross2001,gross2002,gross2005_fit,gross2005_literature,gross2006,rehner2020,loetgeringlin2018,eller2022,esper2023}.json, saftvrmie/lafitte2013.json, saftvrqmie/{aasen2019,aasen2019_fh2,hammer2023}.json x T/Tc in {0.45,0.5,0.6,0.7,0.8,0.9,0.95,0.99} (SAFT-VRQ Mie: {0.6,0.65,0.7,0.8,0.9,0.95,0.97,0.99}), Tc = State::critical_point of that model; each case: pure(T) -> conditions -> pure(p_sat) -> conditions, T' = T, -> pure(T') -> p' = p. sampled: the same records (half file-weighted, half record-uniform) x T/Tc uniform in the range x solver options (max_iter 20-200, tol 1e-13..1e-9, each with prob. 1/2) x T- or p-specification. diagram: PhaseDiagram::pure, npoints 3-200 (half 3-12), T_min/Tc in [range start, 0.9], options. mixture: 2-3 shipped records of one family (+ random k_ij) x component x T/Tc: vapor_pressure, boiling_temperature, vle_pure_comps(T), vle_pure_comps(p) against the directly built pure models. random: random Peng-Robinson / PeTS / uv-theory (WCA, BH, B3) pure records, conditions whenever Ok. Non-trivial: T/Tc >= 0.9 or <= 0.5, or associating/polar record, or non-default options; diagrams with >= 2 sub-critical states; mixtures with >= 1 component inside its success range. Distinct by hash of the canonical case.");
+    ctx.assume("equilibrium conditions are recomputed on fresh State::new_nvt states at the returned (T, V, N) of each phase: |p_v - p_l| <= tol*p + 2e-10*(rho_l T + sum_c |dA_c/dV|) (the liquid pressure is a difference of O(rho T) terms whose resolution is one ulp of the liquid density times dp/drho, measured 2.6e-12 of that scale in 1.44e6 cases: vanishing vapor pressures cannot raise alarms), |mu_v - mu_l| <= tol*RT with mu = mu_res + RT ln rho; tol = 2e-6 for the default solver tolerance 1e-12 (and up to 1e-10), 2e4 x the solver tolerance option for looser ones (round trips: 1e-7 resp. 2e3 x option), x10 for diagram states above 0.99 Tc. Reason for 2e-6 instead of 100 x 1e-12: pure_t / pure_p stop on the pressure (temperature) update while each density is one Newton step behind, so the residual of the returned state is the square of the last relative density correction: measured on the unchanged tree (1.44e6 cases): 2.6e-8 below 0.99 Tc with tolerances <= 1e-10, 3.1e-7 above 0.99 Tc or with looser tolerances (0.03 of the allowed value)");
+    ctx.assume("round trips T -> p -> T' and p -> T' -> p': 1e-7 on T (measured <= 1.2e-9 with tolerances <= 1e-10; <= 0.03 of the allowed value with looser ones), 30 x that on p (measured <= 0.012 of it), 100 x on the densities (measured <= 1e-3 of it); mixture functions against the pure model 1e-10 (same arithmetic, measured 0)");
+    ctx.assume("success is demanded for shipped PC-SAFT / SAFT-VR Mie records at T/Tc in [0.45, 0.99], SAFT-VRQ Mie records at [0.6, 0.99] except helium with fh = 2, with solver options at least as generous as the defaults (max_iter >= 50, tol >= 1e-12); tighter options and random records: conditions whenever Ok");
+    ctx.assume("pure(p) is not covered by the success clause of the statement (which speaks of temperatures): its failures are counted per reduced-temperature class (helium never succeeds: init_pure_p only tries 300/500/200 K x 0.7^k, k <= 8; the six SAFT-VR Mie records with the spurious default critical point report SuperCritical); whenever it is Ok inside [T_min, T_c] it must invert pure(T); an equilibrium returned outside that range is another coexistence branch of the model (counted as inconclusive)");
+    ctx.assume("diagram completeness is demanded for grid temperatures <= 0.99 Tc only (with npoints > (1 - Tmin/Tc)/0.01 + 1 the grid has points between 0.99 Tc and Tc, outside the success clause; their absence is counted)");
+    ctx.assume("the critical temperature is State::critical_point(model, None, None, default) of the pure model, as in PhaseDiagram::pure, unless that call returns a stationary point with p_c <= 0 (finding C04/saftvrmie-spurious-critical-point); then the first result with p_c > 0 from initial temperatures 1.3 eps/k (1 + 0.1 (m - 1)) x {1, 1.5, 2, 0.7, 3}. C06 decides whether critical points are genuine");
+    ctx.assume("replay files store floats through serde_json without the float_roundtrip feature: a replayed temperature can differ by one ulp, and the failure set of pure(T) is sensitive at that level (knife-edge cases may not reproduce; the finding files in findings/ do)");
+    let items = lattice_items();
+    ctx.extra("lattice_records", json!(DOMAIN_POOL.len()));
+    ctx.run_lattice("lattice", items, PanicPolicy::Violation, true, &check_solve);
+    ctx.run_sampled(&SAMPLED, &decode_sampled, &check_solve);
+    ctx.run_sampled(&DIAGRAM, &decode_diagram, &check_diagram);
+    ctx.run_sampled(&MIXTURE, &decode_mixture, &check_mixture);
+    ctx.run_sampled(&RANDOM, &decode_random, &check_solve);
+    let w: std::collections::BTreeMap<String, f64> = WORST.v.lock().unwrap().iter().map(|(k, v)| (k.to_string(), *v)).collect();
+    ctx.extra("worst_seen", json!(w));
+}
+
+pub fn replay(ctx: &Ctx, part: &str, case: &Value) -> bool {
+    match part {
+        "diagram" => ctx.replay_case::<DCase>(case, &check_diagram),
+        "mixture" => ctx.replay_case::<MCase>(case, &check_mixture),
+        _ => ctx.replay_case::<SCase>(case, &check_solve),
+    }
 }
